@@ -630,3 +630,25 @@ def aug_check(c, case, pid):
         c.fail("%s/%s" % (cn, opn), "%s %s <%s> gave %s but the binary operator gives %s" % (cn, opn, case["rkind"], _short(got), _short(want)))
     if got[0] == "raise" and not same(snap(keep), before):
         c.fail("%s/%s/left_changed_by_failed_op" % (cn, opn), "a rejected %s changed its left operand" % opn)
+
+
+# case kinds added in the later adversarial rounds (DESIGN.md section 6), per property: part of the stated rule of what is generated
+EXTRA_RULES = {
+    "C01": " Further entries: interp between nearly opposite unit quaternions; quaternion 4-vectors of length 1 +- m x 10^-k (sub-check near_unit_quaternions); prod() over 1200 values.",
+    "C02": " Further operand relations: twists with parallel rotational parts; rotation angles 5e-10..2e-8 (cos rounds to 1) and within 2e-7..1.6e-6 of a half turn.",
+    "C03": " Further inputs: angles a hair either side of 10^-k from 0 and pi; translations around the 10-eps zero-vector size (grid exp3_zero_threshold); pure translations; batches of 2..7 twists for SE3.Exp.",
+    "C04": " Further routes: Quaternion.Pure(w/2).exp(), Twist3[3|5].prod(); q*p, q*P, qvmul for q and -q; rpy/eul read back from a three-valued UnitQuaternion; expression-tree tolerance grows with the number of times a leaf enters.",
+    "C05": " Further inputs: exact zeros in every slot of the packed forms; option strings built at run time.",
+    "C06": " Further inputs: products of unit dual quaternions of either sign; micro-scale data (1e-8..1e-3) with one result coordinate 1e-8..1e-1 of the others.",
+    "C08": " Further kinds: rarr (right-operand arrays of 9 shapes for + - /), larr with lists / tuples, scalarvalue (0, 1, -1, False), linebool (^ | == != answer with a bool).",
+    "C09": " Further calls: interp(vector s, start) and interp at s = 0, 1 per value; conversions SE2.SE3(z) / Twist2() / Twist3() per value; == of 1 against M values in both orders; constructor lengths 1..9 and 17; prismatic twists in degrees.",
+    "C11": " Further inputs: integer-typed poses of int8/16/32/64 with translations over the whole range of the type; relative rotations just above the stated 1e-6.",
+    "C12": " Further kinds: bigint (Python-int lists with components to 1e5, powers to +-6); DualQuaternion parts replaced after use; scalar parts to +-300, vector norms pi - 10^-14 and pi - 8..64 ulp; powers of quaternions with exactly-zero components.",
+    "C13": " Further forms: round:float32 / round:float16 (arbitrary reals rounded to that type); vex/vexa with check=True incl. exactly-zero rotational / translational parts.",
+    "C14": " Further inputs: UnitQuaternion(..., norm=False).unit(); stacks of 4 and 5 quaternion rows; twists whose whole vector has norm 1 (+- ulp).",
+    "C15": " Further kinds: stype (each scalar slot as every NumPy scalar type), thetalen / wronglen (wrong-length vectors must raise), printunit (numbers inside the text of trprint / printline in both units), table entries with the scalar parameter at 0, 1, 0.5 (slerp, qpow, angvec2r, trotx), invalid options with all-zero angles.",
+    "C17": " Further pool members: column-major arrays and objects holding them, bounds arrays for intersect_volume; -= and /= on the list classes that do not define them.",
+    "C18": " Further kinds: thetatype (11 element types x scalar / list / tuple / array / mixed sequences, degrees); theta vectors that are exact or nearly exact arithmetic progressions; isprismatic of a three-valued Twist2.",
+    "C19": " Further relations: nearly_parallel (1e-8..1e-3 rad), a line and its reversal, != against ==; plane coefficient vectors scaled by 1e-5..10; closest() for query points on the line.",
+    "C20": " Further inputs: exactly-zero linear / angular halves; masses 1e-18..1e9 with each 3x3 block judged on its own scale; objects of 5, 6, 7 and 9000 values.",
+}
